@@ -33,6 +33,7 @@ type Proxy struct {
 	Msgs      map[string]int
 	closed    bool
 	upCh      chan struct{}
+	answer    map[string]string // method -> result JSON the proxy answers itself (the request is not forwarded)
 }
 
 type pair struct {
@@ -107,6 +108,21 @@ func (p *Proxy) pump(pr *pair, from, to net.Conn, dir string) {
 		if bh {
 			continue // swallowed
 		}
+		if dir == "c2s" {
+			var m struct {
+				Method string          `json:"method"`
+				ID     json.RawMessage `json:"id"`
+			}
+			p.mu.Lock()
+			ans := p.answer
+			p.mu.Unlock()
+			if len(ans) > 0 && json.Unmarshal(raw, &m) == nil {
+				if res, ok := ans[m.Method]; ok && len(m.ID) > 0 && string(m.ID) != "null" {
+					_, _ = from.Write([]byte(`{"id":` + string(m.ID) + `,"result":` + res + `,"error":null}` + "\n"))
+					continue
+				}
+			}
+		}
 		if fire != nil && fire.Inside {
 			_, _ = to.Write(raw[:len(raw)/2])
 			pr.close()
@@ -122,6 +138,16 @@ func (p *Proxy) pump(pr *pair, from, to net.Conn, dir string) {
 			return
 		}
 	}
+}
+
+// Answer makes the proxy reply to a method itself.
+func (p *Proxy) Answer(method, result string) {
+	p.mu.Lock()
+	if p.answer == nil {
+		p.answer = map[string]string{}
+	}
+	p.answer[method] = result
+	p.mu.Unlock()
 }
 
 // Arm installs a rule; counting starts now.
